@@ -256,6 +256,8 @@ def cobs(o):
     if o is None:
         return "None"
     t = o["t"]
+    if t == "skip":
+        return "None"
     if t == "unit":
         return "(Some OUnit)"
     if t == "none":
